@@ -254,7 +254,7 @@ impl HCtx {
 
     pub fn rebuild(&mut self) {
         let allow: Option<HashSet<Uuid>> = self.allow.clone().map(|v| v.into_iter().map(|c| self.l1.client(c)).collect());
-        let cfg = ServerConfig { snapshot_days: self.l1.days, snapshot_versions: self.l1.versions };
+        let cfg = ServerConfig { snapshot_days: self.l1.days, snapshot_versions: self.l1.versions, ..Default::default() };
         self.web = Some(WebServer::new(cfg, allow, self.l1.shared()));
     }
 
